@@ -226,9 +226,9 @@ int main(int argc, char** argv) {
 				vf::set_inflight(case_of(e, pl).dump());
 				vf::set_progress((long) (k - 1));
 				std::string bytes = patched(p, pl);
-				alarm((unsigned) g_watchdog);
+				vf::watch_start(g_watchdog);
 				int rc = workload_corrupted(bytes);
-				alarm(0);
+				vf::watch_stop();
 				done++;
 				st.add("evaluations");
 				st.add(pl.size() == 1 ? "single_faults" : pl.size() == 2 ? "double_faults" : "triple_faults");
